@@ -161,6 +161,11 @@ pub struct Req {
 	pub call: Call,
 	/// JSON-RPC notification (no id member): executed, not answered
 	pub notify: bool,
+	/// receive_tx only: the optional return address (3rd parameter). 0..=179 null; 180..=229 a string that is not a
+	/// slatepack address; 230..=255 a well-formed slatepack address. The handler under test has no Tor configuration
+	/// (as a listener started without Tor), so no variant reaches the network.
+	#[serde(default)]
+	pub r_addr: u8,
 }
 
 #[derive(Clone, Debug, Serialize, Deserialize)]
@@ -363,7 +368,7 @@ fn dest_strategy() -> BoxedStrategy<DestPick> {
 }
 
 fn req_strategy() -> BoxedStrategy<Req> {
-	(call_strategy(), prop::bool::weighted(0.04)).prop_map(|(call, notify)| Req { call, notify }).boxed()
+	(call_strategy(), prop::bool::weighted(0.04), prop_oneof![5 => Just(0u8), 3 => 180u8..=255]).prop_map(|(call, notify, r_addr)| Req { call, notify, r_addr }).boxed()
 }
 
 // ---------------------------------------------------------------------------------------------
@@ -1198,7 +1203,7 @@ impl Prop for C07 {
 	}
 	fn assumptions(&self) -> Vec<String> {
 		vec![
-			"r_addr is always null (outbound Tor send is outside the sandbox)".into(),
+			"r_addr is null, a non-address string or a well-formed slatepack address; the handler has no Tor configuration (listener started without Tor), so nothing is sent (an outbound Tor send is outside the sandbox)".into(),
 			"hex fields are always well-formed hex (non-hex strings panic in grin_keychain/grin_util from_hex: open C09 findings)".into(),
 			"dest_acct_name = null: receipt into the active account or into 'default' are both accepted; an unknown account name may be refused or fall back to the active account".into(),
 			"authorised = finalize_tx for a slate the victim initiated carrying a participant entry (excess, nonce, partial signature) identical to one in the counterparty's honest reply; such calls are executed but not judged (C02)".into(),
@@ -1427,7 +1432,20 @@ impl C07 {
 						ttl: u64_of(v.get("ttl")),
 					};
 					earlier_slates.push(v.clone());
-					(envelope("receive_tx", json!([v, dj, null]), req.notify).to_string().into_bytes(), kind)
+					let rj: Value = match req.r_addr {
+						0..=179 => Value::Null,
+						180..=189 => json!(""),
+						190..=199 => json!("http://127.0.0.1:1"),
+						200..=209 => json!("grin1notanaddress"),
+						210..=219 => json!("tgrin1\u{e9}\u{e9}"),
+						220..=229 => json!("x".repeat(req.r_addr as usize * 40)),
+						_ => match sim.slatepack_address(1) {
+							Ok(a) => json!(a.to_string()),
+							Err(_) => Value::Null,
+						},
+					};
+					out.class(format!("receive_tx/r_addr:{}", match req.r_addr { 0..=179 => "null", 180..=229 => "not-an-address", _ => "address" }));
+					(envelope("receive_tx", json!([v, dj, rj]), req.notify).to_string().into_bytes(), kind)
 				}
 				Call::Finalize { target, form, edit } => {
 					let mut v = if victim_slates.is_empty() {
